@@ -2,29 +2,25 @@ package main
 
 import (
 	"fmt"
-	"math"
 
 	"github.com/tdewolff/canvas"
-	"verif/internal/oracle"
 )
 
 func main() {
-	for _, s := range []oracle.Seg{
-		oracle.MkArc(oracle.Pt{}, 1, 1, 0, true, false, oracle.Pt{X: 1, Y: 2}),
-		oracle.MkArc(oracle.Pt{}, 1, 2, 15, false, false, oracle.Pt{X: 1, Y: -1}),
+	for _, m := range []canvas.Matrix{
+		canvas.Identity.Rotate(30).Scale(2, 1),
+		canvas.Identity.Scale(2, 1).Rotate(30),
+		canvas.Identity.Shear(0.5, 0).Translate(3, -2),
+		canvas.Identity.Scale(1, -1).Rotate(30),
+		canvas.Identity.Rotate(90),
+		canvas.Identity.Scale(-1, -1),
+		canvas.Identity.Translate(3, -2),
 	} {
-		d := oracle.PathData([]oracle.Subpath{oracle.Chain(false, s)})
-		p := canvas.NewPathFromData(d)
-		fmt.Println(oracle.Fmt(d), d)
-		fmt.Println(" bounds", p.Bounds(), "fast", p.FastBounds(), "len", p.Length())
-		c, th0, dth, rx, ry := oracle.ArcCenter(s.P0, s.Rx, s.Ry, s.Phi, s.Large, s.Sweep, s.P1)
-		fmt.Println(" oracle center", c, th0, dth, rx, ry)
-		lo, hi := s.ExactBBox()
-		fmt.Println(" oracle box", lo, hi, "len", oracle.SegLength(s))
-		fmt.Println(" flatten", p.Flatten(0.1))
-		q := &canvas.Path{}
-		q.MoveTo(0, 0)
-		q.ArcTo(s.Rx, s.Ry, s.Phi*180/math.Pi, s.Large, s.Sweep, s.P1.X, s.P1.Y)
-		fmt.Println(" builder", q.Data())
+		tx, ty, r3, sx, sy, r6 := m.Decompose()
+		docForm := canvas.Identity.Translate(tx, ty).Rotate(r6).Scale(sx, sy).Rotate(r3)  // doc: 3rd=theta, 6th=phi; Translate.Rotate(phi).Scale.Rotate(theta)
+		altForm := canvas.Identity.Translate(tx, ty).Rotate(r3).Scale(sx, sy).Rotate(r6)
+		fmt.Println(m, "decompose", tx, ty, r3, sx, sy, r6)
+		fmt.Println("   doc formula equals m:", docForm.Equals(m), " swapped formula equals m:", altForm.Equals(m))
+		fmt.Printf("   ToSVG(10)=%q T=%v\n", m.ToSVG(10), m.T())
 	}
 }
